@@ -16,8 +16,9 @@ Img(x) == LET arch == x[1] IN
     lfanew |-> x[2],
     magicMZ |-> IF x[6] = "custom" THEN (IF arch = "x64" THEN <<79, 79, 80, 83>> ELSE <<72, 73>>) ELSE (IF arch = "x64" THEN <<77, 90, 65, 82>> ELSE <<77, 90>>),
     magicPE |-> IF x[6] = "custom" THEN <<69, 65, 0, 0>> ELSE <<80, 69, 0, 0>>,
-    nsec |-> 2, expsec |-> IF x[4] \in {"last", "lastend"} THEN 2 ELSE 1, secsize |-> 512,
-    expoff |-> CASE x[4] = "first0" -> 0 [] x[4] = "lastend" -> 512 - 40 [] OTHER -> 16,
+    nsec |-> 2, expsec |-> IF x[4] \in {"last", "lastend", "last0"} THEN 2 ELSE 1, secsize |-> 512,
+    expoff |-> CASE x[4] \in {"first0", "last0"} -> 0 [] x[4] = "lastend" -> 512 - 40 [] OTHER -> 16,
+    vsize |-> 512,
     prepend |-> Rep(144, x[3]),
     append |-> CASE x[5] = "none" -> <<>> [] x[5] = "bytes" -> <<1, 2, 3, 255>> [] x[5] = "pad" -> Zeros(16) [] OTHER -> <<7, 0, 8>> \o Zeros(13)]
 \* a compact image (one 64-byte section) behind a prepend that looks like a table of small dwords: every scan offset inside the
@@ -25,10 +26,16 @@ Img(x) == LET arch == x[1] IN
 DwordTable(n) == [i \in 1..n |-> CASE i % 4 = 1 -> 232 [] i % 4 = 2 -> 3 [] OTHER -> 0]          \* 1000 as u32le, repeated
 SmallImg(arch, n, exp) == [Img(<<arch, 64, 0, exp, "bytes", "default">>) EXCEPT !.nsec = 1, !.expsec = 1, !.secsize = 64, !.prepend = DwordTable(n)]
 SmallScn == Archs \X {61, 64, 257, 600, 959, 1020} \X {"none", "first", "first0"}
-Table == LET q == SetToSeq(Scn)  qs == SetToSeq(SmallScn) IN
+\* sections that are adjacent in the virtual address space (virtual size 4096, raw size 512): an export directory at the very
+\* start of the second section lies exactly at the end of the first one's virtual range - it belongs to the second
+AdjScn == Archs \X {"last0", "first0", "last", "lastend"} \X {64, 248}
+AdjImg(arch, exp, lf) == [Img(<<arch, lf, 3, exp, "bytes", "default">>) EXCEPT !.vsize = 4096]
+Table == LET q == SetToSeq(Scn)  qs == SetToSeq(SmallScn)  qa == SetToSeq(AdjScn) IN
          [i \in 1..Len(q) |-> [scn |-> q[i], stage |-> Stage(Img(q[i])), expect |-> Artifacts(Img(q[i]))]]
          \o [i \in 1..Len(qs) |-> [scn |-> <<qs[i][1], 64, qs[i][2], qs[i][3], "bytes", "small">>,
                                    stage |-> Stage(SmallImg(qs[i][1], qs[i][2], qs[i][3])), expect |-> Artifacts(SmallImg(qs[i][1], qs[i][2], qs[i][3]))]]
+         \o [i \in 1..Len(qa) |-> [scn |-> <<qa[i][1], qa[i][3], 3, qa[i][2], "bytes", "adjacent">>,
+                                   stage |-> Stage(AdjImg(qa[i][1], qa[i][2], qa[i][3])), expect |-> Artifacts(AdjImg(qa[i][1], qa[i][2], qa[i][3]))]]
 ASSUME Mode = "table" => JsonSerialize(IOEnv.OUTF, Table)
 
 Tr == IF Mode = "trace" THEN ndJsonDeserialize(IOEnv.TRACE) ELSE <<>>
